@@ -20,7 +20,7 @@ NOT_APPLICABLE = {
 # claimed in DESIGN.md but whose check is not built yet (kept honest in the
 # manifest until the rule module exists and passes on the tree)
 PENDING = {}
-for _p in ['C04', 'C05', 'C09', 'C10', 'C15', 'C16', 'C18']:
+for _p in []:
     PENDING[_p] = ('not claimed yet: the static rules designed for this '
                    'property (DESIGN.md section 4) are not built yet')
 
@@ -216,3 +216,122 @@ claim('C13',
       'who-may-call, guard dominance, per-iteration event counting, '
       'typestate over the search loop',
       'DESIGN.md §4 C13')
+
+
+claim('C04',
+      'Static ordering and ownership obligations on the disk queue: the '
+      'file-creating primitives (aio_write, mkstemp, rename, open-for-'
+      'write) occur only in the temp-file writer; in AioFile.dump the '
+      'rename of the temp file onto the final path is dominated by the '
+      'temp-file creation, by every write and by offset >= data_len, and '
+      'never sits in cleanup code; DiskStorage.write publishes the '
+      'envelope before the meta before returning the id; metadata updates '
+      'are read-modify-write through the atomic writer; the start-up scan '
+      'handles a missing meta per id inside the loop; removal deletes both '
+      'files and tolerates absence.  This fixes which file-system effects '
+      'can occur and in which order - the space the crash-point quantifier '
+      'ranges over.',
+      'Trusted: POSIX rename atomicity, mkstemp in tmp_dir being on the '
+      'same file system, pickle fidelity. Crash points are not executed.',
+      'who-may-call, must-event ordering dataflow, guard dominance, '
+      'lexical scope checks on the CFG',
+      'DESIGN.md §4 C04')
+
+claim('C05',
+      'Reader half only, structural: the end-of-data sentinel (a None-or-'
+      'index attribute, discovered by kind inference) is tested by identity '
+      'only; lines are rewritten and EOD set only while EOD is None; the '
+      'hand-over between the command buffer and the reader takes the whole '
+      'buffer, clears it, returns lines[:EOD] and restores lines[EOD+1:]; '
+      'bytes reach the reader only through the shared buffer and raw_recv. '
+      'The sender/reader bijection under all segmentations is a value-level '
+      'fact and is NOT decided.',
+      'Trusted: regex semantics of eod_pattern / fullline_pattern; '
+      'DataSender is not analysed. This is a thin claim: necessary '
+      'structural conditions of the round trip, not the round trip.',
+      'kind inference for sentinel discovery, guard dominance, slice-shape '
+      'and def-use checks, who-may-call',
+      'DESIGN.md §4 C05')
+
+claim('C09',
+      'Static single-buffer discipline that makes segmentation independence '
+      'hold by construction: socket reads only in IO.raw_recv, raw_recv only '
+      'from the buffered reader and the DATA reader, recv_buffer written '
+      'only by IO and the two hand-over methods; every consumption in '
+      'recv_line / recv_reply is dominated by a match of a pattern whose '
+      'regex AST ends in a newline; hand-over in both directions; sentinel '
+      'discipline for the empty message; a DATA abort that leaves the '
+      'stream mid-message cannot return normally to the command loop '
+      '(exception-token CFG from DataReader through the server).',
+      'Trusted: sre regex parser for the pattern shape; the metamorphic '
+      'relation itself (equal traces across segmentations) is not '
+      'executed.',
+      'who-may-call, regex AST inspection, guard dominance, exception-'
+      'token reachability with fact-pruned branches',
+      'DESIGN.md §4 C09')
+
+claim('C10',
+      'Static FIFO discipline of Client.reply_queue: ownership of the '
+      'queue (append of a fresh Reply / pop(0) only); on every normal path '
+      'of every command method appends minus wire commands is 0 (1 for '
+      'unsolicited reads), the append precedes the send; non-pipelinable '
+      'commands flush before returning, pipelinable ones on the not-'
+      'PIPELINING branch, auth() before the SASL exchange; the drain loop '
+      'flushes first, reads exactly one reply per popped object and stops '
+      'on the empty queue; LMTP queues one data reply per accepted '
+      'recipient and resets its recipient list at every reset point.',
+      'Trusted: Reply.recv consumes exactly one reply (C17, not decided '
+      'here).',
+      'typestate difference counting, must-event ordering, per-iteration '
+      'counting, who-may-call',
+      'DESIGN.md §4 C10')
+
+claim('C15',
+      'Sibling agreement of the four storage backends with the interface '
+      'and with their consumer, decided statically: overrides and arity; '
+      'result shapes by kind inference (write never None, get a 2-tuple, '
+      'load yields pairs, increment returns the incremented stored value, '
+      'no dict unpacked as a tuple); maybe-missing keys of storage records '
+      'are never subscripted (contradiction rule over builder and '
+      'consumers); id claimed only after a negative existence test or '
+      'atomic set-if-absent; argument-kind conformance and fetch filtering '
+      'shared with C01/C03.',
+      'Trusted: the substrates (redis, S3, file system); ID_EXEMPT table. '
+      'Known findings: set_recipients_delivered of disk/redis/cloud cannot '
+      'take the set the queue passes.',
+      'interface conformance over the class hierarchy, abstract kinds, '
+      'contradiction (maybe-missing key) analysis, typestate',
+      'DESIGN.md §4 C15')
+
+claim('C16',
+      'Conservation by construction, decided per loop iteration and per '
+      'path: each split places every recipient exactly once and emits one '
+      'copy per group / bad recipient, keeping the original only for a '
+      'single group; Envelope.copy deep-copies and every list handed to '
+      'copy() in a loop is fresh; Date / Message-Id only under the absence '
+      'test of the same header, Received through insert(0); forwarding '
+      'rewrites only under changes > 0 and leaves the rule loop; the policy '
+      'recursion substitutes outputs for the input and recurses with i+1 '
+      'on every output exactly once and on an untouched envelope.',
+      'Trusted: copy.deepcopy, email header object semantics; rewritten '
+      'strings are not decided.',
+      'per-iteration event counting, guard dominance, def-use freshness '
+      'check, reachability',
+      'DESIGN.md §4 C16')
+
+claim('C18',
+      'Bounds and failure channels of the PROXY parsers, decided '
+      'statically: every read is recv_into with an explicit count into a '
+      'view of a bytearray of protocol-constant size inside a loop bounded '
+      'by that size (v1 107, initial 8, v2 16 then the declared length); '
+      'exception-escape analysis with a decoder table shows only '
+      'AssertionError / LocalConnection leave the parsers; the three '
+      'handle() methods map AssertionError to the invalid address and still '
+      'call the wrapped handler, LocalConnection to a return; signature '
+      'constants agree. Exact consumption and returned addresses are '
+      'value-level and NOT decided.',
+      'Trusted: DECODER_RAISES table (verified in this sandbox), '
+      'recv_into never writing past the given count.',
+      'buffer-bound pattern check, exception-escape analysis over inlined '
+      'CFG, handler reachability',
+      'DESIGN.md §4 C18')
